@@ -17,6 +17,7 @@ from .helpers import Every  # noqa: E402
 from .. import terms as T
 from ..model import AnalysisError, self_attr, walk_no_nested
 from ..paths import unversion
+from ..phases import conjuncts
 from .c03 import raise_guards
 
 
@@ -66,7 +67,8 @@ def _default(chk, ctx) -> None:
         if none in cs:
             got = status
             w = T.subst(want, {('name', 'P'): pi})
-            ok_default.see(T.truthy(status) == w or status == w)
+            pre = [c for c in cs if c not in (T.truthy(status), T.mk_not(T.truthy(status)))]       # (the decision itself is tested later on)
+            ok_default.see(T.truthy(status) == w or status == w or T.truthy(status) == T.under(w, pre) or status == T.under(w, pre))
         if isbool in cs:
             ok_bool.see(status == ('name', 'status_or_hole_cards'))
     chk.ob('C12.default', 'State.verify_hole_cards_showing_or_mucking', ok_default and ok_bool, fi.loc,
@@ -105,7 +107,7 @@ def _coverage(chk, ctx) -> None:
     own = T.spec('self.get_hand(player_index, b, h)', {'b': b, 'h': h})
     best = T.spec('max_or_none(map(partial(getitem, HANDS), POT.player_indices))', {'HANDS': hands, 'POT': pot})
     win = T.spec('OWN is not None and (BEST is None or BEST <= OWN)', {'OWN': own, 'BEST': best}, boolean=True)
-    true_ok = false_ok = False
+    true_ok, false_ok = Every(), False
     loops_ok = False
     got = None
     for p in ctx.paths(fi):
@@ -116,7 +118,9 @@ def _coverage(chk, ctx) -> None:
         entered = [unversion(e.term) for e in p.events if e.kind == 'loop' and e.op == 'enter']
         if r == ('const', True):
             got = cs[-1] if cs else None
-            true_ok = bool(cs) and cs[-1] == win
+            flat = [unversion(c) for c in p.conds(flat=True)]
+            # every way to answer "can win" assumes the whole test (in one condition or in nested ones)
+            true_ok.see(bool(cs) and (cs[-1] == win or all(c in flat for c in conjuncts(win))))
             loops_ok = entered == [('self', 'board_indices'), ('self', 'hand_type_indices'), ('self', 'pots')]
         elif r == ('const', False):
             false_ok = True
